@@ -105,13 +105,66 @@ theorem concurrent_no_deadlock (isNull : List Bool) (k : Nat) (s : SparseConc.St
     (∃ e s', SparseConc.step s e = some s') :=
   (SparseConc.no_deadlock isNull k s h r pc hr hact).1
 
-/-- a failed load leaves the chunk not done and its mutex free: the next reader loads it again -/
-theorem concurrent_failed_load_retried (isNull : List Bool) (k : Nat) (s s' : SparseConc.St)
-    (h : SparseConc.Reachable (SparseConc.St.init isNull k) s) (r i : Nat) (range todo : List Nat)
-    (hr : s.readers[r]? = some (.fetching range todo i)) (hs : SparseConc.step s (.fetchFail r) = some s') :
-    s'.done.getD i false = false ∧ s'.lock.getD i none = none :=
-  let h' := SparseConc.fetchFail_not_done isNull k s s' h r i range todo hr hs
-  ⟨h'.1, h'.2.1⟩
+/-- every way a load can fail (the store call, `Data()`, opening or writing the cache file, the
+    latter possibly after a partial write) leaves the reader in `failed` for the chunk it was loading,
+    still holding the chunk's mutex; bitmap, mutexes and cache file flags are unchanged -/
+theorem concurrent_load_failure_is_failed (s s' : SparseConc.St) (r : Nat) (e : SparseConc.Ev)
+    (he : e = .fetchFail r ∨ e = .dataFail r ∨ e = .writeFail r) (hs : SparseConc.step s e = some s') :
+    ∃ pc range i, s.readers[r]? = some pc ∧ pc.loading = some i ∧ pc.range = range ∧
+      s'.readers[r]? = some (.failed range i) ∧
+      s'.done = s.done ∧ s'.lock = s.lock ∧ s'.populated = s.populated :=
+  SparseConc.fail_to_failed s s' r e he hs
+
+/-- a failed load leaves the chunk not done: in every reachable state (whatever the other readers did
+    in between) a reader whose load of chunk `i` failed sees `done i = false`, its `release` is enabled,
+    and after it the chunk is still not done, its mutex is free and the reader returns an error -/
+theorem concurrent_failed_load_retried (isNull : List Bool) (k : Nat) (s : SparseConc.St)
+    (h : SparseConc.Reachable (SparseConc.St.init isNull k) s) (r i : Nat) (range : List Nat)
+    (hr : s.readers[r]? = some (.failed range i)) :
+    s.done.getD i false = false ∧
+    ∃ s', SparseConc.step s (.release r) = some s' ∧
+      s'.done.getD i false = false ∧ s'.lock.getD i none = none ∧
+      s'.readers[r]? = some (.returned false range false) :=
+  SparseConc.failed_not_done isNull k s h r i range hr
+
+/-- … and the next reader loads it again: a read that starts while a non-null chunk of its range is
+    not done puts the chunk on its to-do list, and a reader that finds the chunk not done under the
+    chunk's mutex issues the store call -/
+theorem concurrent_undone_chunk_loaded_again (s : SparseConc.St) :
+    (∀ s' r range, SparseConc.step s (.start r range) = some s' →
+      ∃ todo, s'.readers[r]? = some (.want range todo) ∧
+        ∀ i ∈ range, s.done.getD i false = false → s.isNull.getD i false = false → i ∈ todo) ∧
+    (∀ r i range todo, s.readers[r]? = some (.locked range todo i) → s.done.getD i false = false →
+      SparseConc.step s (.check r) = some (SparseConc.setR s r (.fetching range todo i))) :=
+  ⟨fun s' r range hs => SparseConc.start_todo s s' r range hs,
+   fun r i range todo hr hd => SparseConc.check_undone_fetches s r i range todo hr hd⟩
+
+/-- **trace validation is sound**: an event trace that the driver's `sparse.accept` replays through
+    `step` without a rejection ends in a reachable state, so every call it shows returning
+    successfully has read the blob's bytes -/
+theorem concurrent_accepted_trace_safe (isNull : List Bool) (k : Nat) (es : List SparseConc.Ev) (s : SparseConc.St)
+    (hacc : SparseConc.replay (SparseConc.St.init isNull k) es = some s) :
+    SparseConc.Reachable (SparseConc.St.init isNull k) s ∧
+    ∀ (r : Nat) (range : List Nat) (sawBlob : Bool),
+      s.readers[r]? = some (SparseConc.PC.returned true range sawBlob) → sawBlob = true :=
+  have hr := SparseConc.replay_reachable _ _ s es .refl hacc
+  ⟨hr, fun r range sb h => SparseConc.read_sees_blob isNull k s hr r range sb h⟩
+
+/-- non-vacuity: two readers of chunk 0 (chunk 1 is a null chunk) and a pre-load call; reader 0's store
+    call fails while reader 1 waits for the mutex, reader 1 then loads the chunk and reads the blob, the
+    pre-load call finds the chunk done -/
+example :
+    (SparseConc.replay (SparseConc.St.init [false, true] 3)
+      [.start 0 [0, 1], .start 1 [0], .acquire 0, .check 0, .fetchFail 0, .release 0,
+       .acquire 1, .check 1, .fetchOk 1, .preload 2 0, .write 1, .mark 1, .release 1, .acquire 2,
+       .ready 1, .check 2, .read 1, .release 2, .loaded 2]).map (fun s => (s.readers, s.done, s.lock)) =
+    some ([.returned false [0, 1] false, .returned true [0] true, .returned true [] true],
+          [true, false], [none, none]) := by decide
+
+/-- non-vacuity of the rejection: a second reader cannot take a held mutex -/
+example :
+    SparseConc.replay (SparseConc.St.init [false] 2)
+      [.start 0 [0], .start 1 [0], .acquire 0, .acquire 1] = none := by decide
 
 /-- the machine's step order is the regenerated one -/
 theorem gen_conc_shape : Gen.sparseLoadChunkShape = SparseConc.modelledShape := by decide
